@@ -28,8 +28,37 @@ pub struct Exchange {
     pub h2: bool,
 }
 
+/// the head ends at the first blank line, CRLF CRLF or (bare-LF heads) LF LF, whichever is first
 fn head_end_h1(b: &[u8]) -> usize {
-    b.windows(4).position(|w| w == b"\r\n\r\n").map(|p| p + 4).unwrap_or(b.len())
+    let crlf = b.windows(4).position(|w| w == b"\r\n\r\n").map(|p| p + 4);
+    let lf = b.windows(2).position(|w| w == b"\n\n").map(|p| p + 2);
+    match (crlf, lf) {
+        (Some(a), Some(b)) => a.min(b),
+        (Some(a), None) | (None, Some(a)) => a,
+        (None, None) => b.len(),
+    }
+}
+
+/// Line-ending and body variants of a generated HTTP/1.x message: the head with bare LF line ends
+/// (accepted by the parser), and a body that itself contains blank lines of either kind
+/// (multipart bodies do), so that "where the head ends" must not depend on how much of the body
+/// has arrived.
+fn h1_variant(r: &mut Rng, msg: Vec<u8>) -> Vec<u8> {
+    let he = head_end_h1(&msg);
+    let (head, body) = msg.split_at(he);
+    let mut out: Vec<u8> = if r.chance(1, 4) {
+        String::from_utf8_lossy(head).replace("\r\n", "\n").into_bytes()
+    } else {
+        head.to_vec()
+    };
+    out.extend_from_slice(body);
+    if r.chance(1, 3) {
+        let parts: [&[u8]; 5] = [b"--b0undary\r\nContent-Disposition: form-data; name=\"a\"\r\n\r\nvalue\r\n", b"\r\n\r\n", b"\n\n", b"x=1&y=2", b"GET /inner HTTP/1.1\r\nHost: inner\r\n\r\n"];
+        for _ in 0..(1 + r.usize(3)) {
+            out.extend_from_slice(*r.pick(&parts));
+        }
+    }
+    out
 }
 
 /// end of the first HEADERS frame on a stream > 0 (the whole block is in that frame here)
@@ -52,7 +81,8 @@ pub fn gen_exchange(r: &mut Rng, id: u64) -> Exchange {
     let (req, res) = if h2 {
         if r.chance(1, 2) { scenario::rich_h2(r, id, false) } else { scenario::simple_h2(r, id, false) }
     } else {
-        (scenario::http1_request(r, id), scenario::http1_response(r, id))
+        let (q, p) = (scenario::http1_request(r, id), scenario::http1_response(r, id));
+        (h1_variant(r, q), h1_variant(r, p))
     };
     let (rq, rs) = if h2 { (head_end_h2(&req, true), head_end_h2(&res, false)) } else { (head_end_h1(&req), head_end_h1(&res)) };
     let v6 = r.chance(1, 5);
